@@ -416,7 +416,7 @@ func secondSolverReport(tier string, confirmed int, unconfirmed []string) interf
 		return "not run in the quick tier"
 	}
 	return map[string]interface{}{
-		"what":        "every discharged obligation was decided again by a solver of a different family (10 s per query, 120 s per function; what is not confirmed in that time is listed, it is not an alarm)",
+		"what":        "every discharged obligation was decided again by a solver of a different family (10 s per query, 120 s per function, 300 s per check; what is not confirmed in that time is listed, it is not an alarm)",
 		"confirmed":   confirmed,
 		"unconfirmed": unconfirmed,
 	}
